@@ -137,6 +137,15 @@ Theorem C03_filter_is_batch (a : 'cV[F]_n) (Q : 'M[F]_n) (ps : seq (period M n n
 Proof. exact: filter_is_batch. Qed.
 
 End Likelihood.
+
+(* non-vacuity: a concrete one-dimensional system with two observed periods (T = P = Z = H = 1, unit
+   variances, any data y1 y2, over any real field) meets every hypothesis used above *)
+Example C03_hypotheses_satisfiable (y1 y2 : F) :
+  let ps := [:: ex_period flog flog2pi y1; ex_period flog flog2pi y2] in
+  let Q : 'M[F]_1 := 1%:M in
+  [/\ is_sym Q, all_ok ps & all_unit (@kf_run M 1 1 0 Q ps)].
+Proof. exact: ex_hypotheses. Qed.
+
 End C03.
 
 Print Assumptions C03_step_meets_spec.
